@@ -207,6 +207,14 @@ def check(P, rep):
             if e.kind == 'invoke':
                 rep.bad('C05.R6', '%s:raw-invoke' % en, 'raw invoke_contract in the token service', esite(g, e), e.describe()[:160])
     rep.floor('ITS token movement sites', nm, 5)
+    # a failing token movement must abort the call: no non-trapping (try_) client call and no raw try_invoke in the service
+    for cn, en in P.all_entries():
+        if cn != CN:
+            continue
+        g = P.graph(cn, en)
+        trys = [e for e in effects(g) if e.kind in ('xcall', 'invoke') and e.try_]
+        rep.check(not trys, 'C05.R6', '%s:no-try-calls' % en, 'no non-trapping (try_) cross-contract call (a failed movement / payment aborts the whole call)', entry_id(g),
+                  '; '.join(x.describe() for x in trys)[:200])
 
 
 def amount_from_decoded(g, e, argi):
